@@ -51,6 +51,9 @@ def rect2polar(x, y):
     theta = atan2(x, y)
     if theta < 0:
         theta = degrees(theta) + 360
+        # a direction less than half an ulp of 360 west of north rounds up to 360.0
+        if theta >= 360:
+            theta = 0.0
     else:
         theta = degrees(theta)
     return r, theta
